@@ -126,14 +126,17 @@ theorem gate_invariant_from (s : State) (rs : List Req) (i : Nat) (hi : i < (tra
 
 /-! ## C06 -/
 
-/-- **C06, legacy sessions.** For every history of legacy requests (no request carries a per-request
-`protocolVersion` at or above 2026-07-28) on a fresh session, at every position: a request reaches a
+/-- **C06, legacy sessions.** For every transport version set `tv` (= `ServerSession.supportedVersions`,
+whatever the transport's `SupportsProtocolVersion` admits) and every history of legacy requests (no
+request carries a per-request `protocolVersion` at or above 2026-07-28) on the fresh session
+`Server.Connect` returns, at every position: a request reaches a
 server-side method handler only if it is `initialize`, `notifications/initialized`, `ping` or
 `notifications/cancelled`, or an earlier request of the history is an accepted `initialize`. -/
-theorem gate_invariant (rs : List Req) (hleg : ∀ r ∈ rs, usesNew r = false)
-    (i : Nat) (hi : i < (trace {} rs).length) (m : Method) (res : HRes)
-    (h : ((trace {} rs)[i]).2.2 = .invoked m res) :
-    m ∈ allowedBeforeInit ∨ ∃ j, ∃ hj : j < (trace {} rs).length, j < i ∧ IsAccept ((trace {} rs)[j]) := by
+theorem gate_invariant (tv : List String) (rs : List Req) (hleg : ∀ r ∈ rs, usesNew r = false)
+    (i : Nat) (hi : i < (trace (fresh tv) rs).length) (m : Method) (res : HRes)
+    (h : ((trace (fresh tv) rs)[i]).2.2 = .invoked m res) :
+    m ∈ allowedBeforeInit ∨
+    ∃ j, ∃ hj : j < (trace (fresh tv) rs).length, j < i ∧ IsAccept ((trace (fresh tv) rs)[j]) := by
   have hreq : ∀ s (rs : List Req) (j : Nat) (hj : j < (trace s rs).length), ((trace s rs)[j]).2.1 ∈ rs := by
     intro s rs
     induction rs generalizing s with
@@ -146,28 +149,29 @@ theorem gate_invariant (rs : List Req) (hleg : ∀ r ∈ rs, usesNew r = false)
         have := ih (admitReq s r).1 j (by simpa [trace] using hj)
         simp only [trace, List.getElem_cons_succ]
         exact List.mem_cons_of_mem _ this
-  rcases gate_invariant_from {} rs i hi m res h with h1 | h1 | h1 | ⟨j, hj, _, hmeta⟩
+  rcases gate_invariant_from (fresh tv) rs i hi m res h with h1 | h1 | h1 | ⟨j, hj, _, hmeta⟩
   · left
     have : m ∈ lifecycle := by simpa using h1
     exact List.mem_append_left _ this
-  · simp at h1
+  · simp [fresh] at h1
   · right; exact h1
-  · exact absurd hmeta.1 (by rw [hleg _ (hreq {} rs j hj)]; simp)
+  · exact absurd hmeta.1 (by rw [hleg _ (hreq (fresh tv) rs j hj)]; simp)
 
 /-- **C06, all sessions.** Without the legacy hypothesis: whatever reaches a method handler is one of
 the four lifecycle/cancellation methods, or follows an accepted `initialize`, or it — or an earlier
 request of the session — carried complete per-request metadata naming a supported version
 ("served without a handshake only if that metadata is complete and names a supported version"). -/
-theorem gate_invariant_general (rs : List Req) (i : Nat) (hi : i < (trace {} rs).length) (m : Method) (res : HRes)
-    (h : ((trace {} rs)[i]).2.2 = .invoked m res) :
+theorem gate_invariant_general (tv : List String) (rs : List Req) (i : Nat)
+    (hi : i < (trace (fresh tv) rs).length) (m : Method) (res : HRes)
+    (h : ((trace (fresh tv) rs)[i]).2.2 = .invoked m res) :
     m ∈ allowedBeforeInit ∨
-    (∃ j, ∃ hj : j < (trace {} rs).length, j < i ∧ IsAccept ((trace {} rs)[j])) ∨
-    (∃ j, ∃ hj : j < (trace {} rs).length, j ≤ i ∧ CarriesValidMeta ((trace {} rs)[j]).2.1) := by
-  rcases gate_invariant_from {} rs i hi m res h with h1 | h1 | h1 | h1
+    (∃ j, ∃ hj : j < (trace (fresh tv) rs).length, j < i ∧ IsAccept ((trace (fresh tv) rs)[j])) ∨
+    (∃ j, ∃ hj : j < (trace (fresh tv) rs).length, j ≤ i ∧ CarriesValidMeta ((trace (fresh tv) rs)[j]).2.1) := by
+  rcases gate_invariant_from (fresh tv) rs i hi m res h with h1 | h1 | h1 | h1
   · left
     have : m ∈ lifecycle := by simpa using h1
     exact List.mem_append_left _ this
-  · simp at h1
+  · simp [fresh] at h1
   · right; left; exact h1
   · right; right; exact h1
 
@@ -178,37 +182,286 @@ example :
     (trace {} [init, list]).map (·.2.2) = [.invoked .initialize .ok, .invoked .tools_list .ok] ∧
     (trace {} [list, init]).map (·.2.2) = [.rejected codeNone [], .invoked .initialize .ok] := by decide
 
+/-- Whatever an `initialize` request (any params, any metadata, any transport) does in any state: it is
+accepted, or the state is exactly what it was and the outcome is one of the refusals the code has. -/
+theorem initialize_step (s : State) (r : Req) (hm : r.method = some .initialize) :
+    (s.init = none ∧ initVersion s.tv r.iver ≠ "" ∧ (admitReq s r).2 = .invoked .initialize .ok) ∨
+    ((admitReq s r).1 = s ∧ ((∃ c d, (admitReq s r).2 = reject r c d) ∨ (admitReq s r).2 = .ignored ∨
+      (admitReq s r).2 = .invoked .initialize (.fail codeNone) ∨
+      (admitReq s r).2 = .invoked .initialize (.failUnsupported s.tv))) := by
+  rcases admit_cases s r with ⟨_, e⟩ | ⟨_, c, _, e⟩ | ⟨_, _, _, e⟩ | ⟨_, _, _, c, _, e⟩ | ⟨_, _, _, hg, e⟩ | ⟨_, _, _, hg, e⟩
+  · right; rw [e]; exact ⟨rfl, Or.inr (Or.inl rfl)⟩
+  · right; rw [e]; exact ⟨rfl, Or.inl ⟨c, [], rfl⟩⟩
+  · right; rw [e]; exact ⟨rfl, Or.inl ⟨_, _, rfl⟩⟩
+  · right; rw [e]; exact ⟨rfl, Or.inl ⟨c, [], rfl⟩⟩
+  · rw [e]
+    rcases dispatch_cases s r with ⟨c, _, e'⟩ | ⟨m, _, hmeth, e'⟩
+    · right; rw [e']; exact ⟨rfl, Or.inl ⟨c, [], rfl⟩⟩
+    · rw [hm] at hmeth; cases hmeth
+      rw [e']
+      rcases serverHandler_initialize s r with ⟨_, e2⟩ | ⟨_, _, e2⟩ | ⟨hv, hs, e2⟩ <;> rw [e2]
+      · right; exact ⟨rfl, Or.inr (Or.inr (Or.inr rfl))⟩
+      · right; exact ⟨rfl, Or.inr (Or.inr (Or.inl rfl))⟩
+      · left; exact ⟨hs, hv, rfl⟩
+  · exfalso
+    rw [hm] at hg
+    cases hn : usesNew r with
+    | false => rw [hn] at hg; exact gate_legacy_never_adopts _ _ hg
+    | true => rw [hn, tbl_gate_initialize_new] at hg; cases hg
+
+/-- **C06 (rejected initialize).** An `initialize` that is not accepted — whichever way it fails:
+unsupported by the transport (-32022), params absent / null / undecodable, an id missing, sent under
+the new protocol, duplicate — leaves the session state (InitializeParams, InitializedParams, log level)
+exactly as it was. For every state, every transport version set, every request descriptor. -/
+theorem rejected_initialize_changes_nothing (s : State) (r : Req) (hm : r.method = some .initialize)
+    (hrej : (admitReq s r).2 ≠ .invoked .initialize .ok) : (admitReq s r).1 = s := by
+  rcases initialize_step s r hm with ⟨_, _, h⟩ | ⟨h, _⟩
+  · exact absurd h hrej
+  · exact h
+
+/-- ... in terms of the wire: an `initialize` that is not answered with a result changes nothing. -/
+theorem initialize_without_result_changes_nothing (s : State) (r : Req) (hm : r.method = some .initialize)
+    (hw : answer r (admitReq s r).2 ≠ .result) : (admitReq s r).1 = s := by
+  rcases initialize_step s r hm with ⟨_, _, h⟩ | ⟨h, _⟩
+  · -- accepted: then the request is a call (checkRequest refuses `initialize` without id) and gets a result
+    exfalso
+    have hid : r.hasId = true := by
+      cases hid : r.hasId with
+      | true => rfl
+      | false =>
+        exfalso
+        rcases admit_cases s r with ⟨_, e⟩ | ⟨_, c, _, e⟩ | ⟨_, _, _, e⟩ | ⟨_, _, _, c, _, e⟩ | ⟨_, _, _, _, e⟩ | ⟨_, _, _, _, e⟩
+        · rw [e] at h; cases h
+        · rw [e, reject_noId hid] at h; cases h
+        · rw [e, reject_noId hid] at h; cases h
+        · rw [e, reject_noId hid] at h; cases h
+        · rw [e] at h
+          unfold dispatch checkAndDecode at h
+          simp [hm, tbl_flags_initialize, hid, reject] at h
+        · rw [e] at h
+          unfold dispatch checkAndDecode at h
+          simp [hm, tbl_flags_initialize, hid, reject] at h
+    rw [h] at hw
+    simp [answer, hid] at hw
+  · exact h
+
 /-- **C06.** A second `initialize` (any params, any metadata) is refused and leaves the session state
 exactly as it was. -/
 theorem second_initialize_rejected_state_unchanged (s : State) (r : Req)
     (hm : r.method = some .initialize) (hs : s.init.isSome = true) :
     (admitReq s r).1 = s ∧ (admitReq s r).2 ≠ .invoked .initialize .ok ∧ answer r (admitReq s r).2 ≠ .result := by
   have key : (admitReq s r).1 = s ∧ ((∃ c d, (admitReq s r).2 = reject r c d) ∨ (admitReq s r).2 = .ignored ∨
-      (admitReq s r).2 = .invoked .initialize (.fail codeNone)) := by
-    rcases admit_cases s r with ⟨_, e⟩ | ⟨_, c, _, e⟩ | ⟨_, _, _, e⟩ | ⟨_, _, _, c, _, e⟩ | ⟨_, _, _, hg, e⟩ | ⟨_, _, _, hg, e⟩
-    · rw [e]; exact ⟨rfl, Or.inr (Or.inl rfl)⟩
-    · rw [e]; exact ⟨rfl, Or.inl ⟨c, [], rfl⟩⟩
-    · rw [e]; exact ⟨rfl, Or.inl ⟨_, _, rfl⟩⟩
-    · rw [e]; exact ⟨rfl, Or.inl ⟨c, [], rfl⟩⟩
-    · rw [e]
-      rcases dispatch_cases s r with ⟨c, _, e'⟩ | ⟨m, _, hmeth, e'⟩
-      · rw [e']; exact ⟨rfl, Or.inl ⟨c, [], rfl⟩⟩
-      · rw [hm] at hmeth; cases hmeth
-        rw [e', serverHandler_initialize_again s r hs]
-        exact ⟨rfl, Or.inr (Or.inr rfl)⟩
-    · rw [hs] at hg; exact absurd hg (gate_init_never_adopts _ _)
+      (admitReq s r).2 = .invoked .initialize (.fail codeNone) ∨
+      (admitReq s r).2 = .invoked .initialize (.failUnsupported s.tv)) := by
+    rcases initialize_step s r hm with ⟨h, _⟩ | h
+    · rw [h] at hs; cases hs
+    · exact h
   refine ⟨key.1, ?_, ?_⟩
-  · rcases key.2 with ⟨c, d, e⟩ | e | e <;> rw [e]
+  · rcases key.2 with ⟨c, d, e⟩ | e | e | e <;> rw [e]
     · exact reject_not_invoked r c d _ _
     · simp
     · simp
-  · rcases key.2 with ⟨c, d, e⟩ | e | e <;> rw [e]
+    · simp
+  · rcases key.2 with ⟨c, d, e⟩ | e | e | e <;> rw [e]
     · unfold reject; cases r.hasId <;> simp [answer]
     · simp [answer]
+    · cases hid : r.hasId <;> simp [answer, hid]
     · cases hid : r.hasId <;> simp [answer, hid]
 
 example : admitReq { init := some ⟨"a", "2025-06-18"⟩ } { method := some .initialize, hasId := true, params := .objOk, tag := "b", iver := "2024-11-05" }
     = ({ init := some ⟨"a", "2025-06-18"⟩ }, .invoked .initialize (.fail codeNone)) := by decide
+
+/-! ### histories with failing `initialize`s, and the transport's version set -/
+
+theorem trace_append (s : State) (pre post : List Req) :
+    trace s (pre ++ post) = trace s pre ++ trace (finalState s pre) post := by
+  induction pre generalizing s with
+  | nil => rfl
+  | cons r pre ih => simp [trace, finalState, ih]
+
+theorem finalState_append (s : State) (pre post : List Req) :
+    finalState s (pre ++ post) = finalState (finalState s pre) post := by
+  induction pre generalizing s with
+  | nil => rfl
+  | cons r pre ih => simp [finalState, ih]
+
+/-- Every entry of a trace is one step of `admitReq` from the state it records, and that state has the
+transport version set the history started with. -/
+theorem trace_entry (s : State) (rs : List Req) (j : Nat) (hj : j < (trace s rs).length) :
+    ((trace s rs)[j]).2.2 = (admitReq ((trace s rs)[j]).1 ((trace s rs)[j]).2.1).2 ∧
+    ((trace s rs)[j]).1.tv = s.tv := by
+  induction rs generalizing s j with
+  | nil => simp [trace] at hj
+  | cons r rs ih =>
+    cases j with
+    | zero => simp [trace]
+    | succ j =>
+      have hj' : j < (trace (admitReq s r).1 rs).length := by simpa [trace] using hj
+      have := ih (admitReq s r).1 j hj'
+      simp only [trace, List.getElem_cons_succ]
+      exact ⟨this.1, by rw [this.2, admit_tv]⟩
+
+/-- **C06 (model of the transport).** `supportedVersions` is fixed by `Server.Connect`: no history
+changes it. -/
+theorem tv_unchanged (s : State) (rs : List Req) : (finalState s rs).tv = s.tv := by
+  induction rs generalizing s with
+  | nil => rfl
+  | cons r rs ih => simp [finalState, ih, admit_tv]
+
+/-- **C06 (rejected initialize, all histories).** A rejected `initialize` can be erased from any
+history: at whatever point `pre` of whatever history it arrives and however it fails, everything after
+it — every later outcome and every later state — is what it would have been had it never been sent. -/
+theorem rejected_initialize_erasable (s : State) (pre post : List Req) (r : Req)
+    (hm : r.method = some .initialize)
+    (hrej : (admitReq (finalState s pre) r).2 ≠ .invoked .initialize .ok) :
+    trace s (pre ++ r :: post) =
+      trace s pre ++ (finalState s pre, r, (admitReq (finalState s pre) r).2) :: trace (finalState s pre) post ∧
+    finalState s (pre ++ r :: post) = finalState s (pre ++ post) := by
+  have h := rejected_initialize_changes_nothing (finalState s pre) r hm hrej
+  constructor
+  · rw [trace_append]; simp [trace, h]
+  · rw [finalState_append, finalState_append]; simp [finalState, h]
+
+/-- **C06 (failing initialize).** On a transport that serves no legacy version (e.g. one that declares
+only 2026-07-28, or nothing at all) no `initialize` is ever accepted, in any state, whatever it carries;
+the state is unchanged. -/
+theorem initialize_refused_without_legacy_version (s : State) (r : Req) (hm : r.method = some .initialize)
+    (hno : ¬ ServesLegacy s.tv) :
+    (admitReq s r).1 = s ∧ (admitReq s r).2 ≠ .invoked .initialize .ok := by
+  rcases initialize_step s r hm with ⟨_, hv, _⟩ | ⟨h, ho⟩
+  · exact absurd ((initVersion_eq_empty_iff _ _).2 hno) hv
+  · refine ⟨h, ?_⟩
+    rcases ho with ⟨c, d, e⟩ | e | e | e <;> rw [e]
+    · exact reject_not_invoked r c d _ _
+    · simp
+    · simp
+    · simp
+
+/-- **C06 (failing initialize).** The three outcomes of a well-formed legacy `initialize` call, exactly:
+-32022 carrying the transport's versions when the transport serves no legacy version (checked FIRST:
+also on a session that already has InitializeParams); the uncoded duplicate error when it does and
+the session has InitializeParams; acceptance — the only case in which the state changes — otherwise. -/
+theorem initialize_outcome (s : State) (r : Req) (hm : r.method = some .initialize) (hid : r.hasId = true)
+    (hleg : usesNew r = false) (hp : r.params = .objOk ∨ r.params = .objDegraded) :
+    (¬ ServesLegacy s.tv → admitReq s r = (s, .invoked .initialize (.failUnsupported s.tv)) ∧
+        answer r (admitReq s r).2 = .error (-32022) s.tv) ∧
+    (ServesLegacy s.tv → s.init.isSome = true → admitReq s r = (s, .invoked .initialize (.fail codeNone))) ∧
+    (ServesLegacy s.tv → s.init = none →
+        admitReq s r = ({ s with init := some ⟨r.tag, r.iver⟩ }, .invoked .initialize .ok)) := by
+  have hcode : codeUnsupportedProtocolVersion = -32022 := tbl_codes.2.2.2.1
+  have hpre : preemptDrops r = false := by simp [preemptDrops, hm]
+  have hcd : checkAndDecode serverMethodInfos r = .ok .initialize := by
+    unfold checkAndDecode
+    simp only [hm, tbl_flags_initialize, hid]
+    rcases hp with hp | hp <;> simp [hp]
+  have e : admitReq s r = ((serverHandler s r .initialize).1, .invoked .initialize (serverHandler s r .initialize).2) := by
+    rcases admit_cases s r with ⟨h, _⟩ | ⟨_, c, h, _⟩ | ⟨_, _, h, _⟩ | ⟨_, _, _, c, hg, _⟩ | ⟨_, _, _, _, e⟩ | ⟨_, _, _, hg, _⟩
+    · rw [hpre] at h; cases h
+    · rw [metaError_legacy hleg] at h; cases h
+    · rw [unsupported_legacy hleg] at h; cases h
+    · rw [hleg, hm, tbl_gate_initialize_legacy] at hg; cases hg
+    · rw [e]; unfold dispatch; rw [hcd]
+    · rw [hleg] at hg; exact absurd hg (gate_legacy_never_adopts _ _)
+  refine ⟨?_, ?_, ?_⟩
+  · intro hno
+    have hv := (initVersion_eq_empty_iff s.tv r.iver).2 hno
+    rcases serverHandler_initialize s r with ⟨_, e2⟩ | ⟨hv', _, _⟩ | ⟨hv', _, _⟩
+    · rw [e, e2]; simp [answer, hid, hcode]
+    · exact absurd hv hv'
+    · exact absurd hv hv'
+  · intro hyes hs
+    have hv : initVersion s.tv r.iver ≠ "" := fun h => (initVersion_eq_empty_iff _ _).1 h hyes
+    rcases serverHandler_initialize s r with ⟨hv', _⟩ | ⟨_, _, e2⟩ | ⟨_, hs', _⟩
+    · exact absurd hv' hv
+    · rw [e, e2]
+    · rw [hs'] at hs; cases hs
+  · intro hyes hs
+    have hv : initVersion s.tv r.iver ≠ "" := fun h => (initVersion_eq_empty_iff _ _).1 h hyes
+    rcases serverHandler_initialize s r with ⟨hv', _⟩ | ⟨_, hs', _⟩ | ⟨_, _, e2⟩
+    · exact absurd hv' hv
+    · rw [hs] at hs'; cases hs'
+    · rw [e, e2]
+
+/-- **C06 (failing initialize, all histories).** On a transport that serves no legacy version, for every
+history of legacy requests — however many `initialize` attempts, `initialized` notifications and
+feature requests it interleaves — nothing but initialize / initialized / ping / cancellation ever
+reaches a handler: a failed initialize does not open the gate. -/
+theorem failed_initialize_never_opens_gate (tv : List String) (hno : ¬ ServesLegacy tv)
+    (rs : List Req) (hleg : ∀ r ∈ rs, usesNew r = false)
+    (i : Nat) (hi : i < (trace (fresh tv) rs).length) (m : Method) (res : HRes)
+    (h : ((trace (fresh tv) rs)[i]).2.2 = .invoked m res) : m ∈ allowedBeforeInit := by
+  rcases gate_invariant tv rs hleg i hi m res h with h1 | ⟨j, hj, _, hm, hacc⟩
+  · exact h1
+  · exfalso
+    obtain ⟨hstep, htv⟩ := trace_entry (fresh tv) rs j hj
+    have hno' : ¬ ServesLegacy ((trace (fresh tv) rs)[j]).1.tv := by rw [htv]; exact hno
+    have := (initialize_refused_without_legacy_version _ _ hm hno').2
+    rw [← hstep] at this
+    exact this hacc
+
+/-- An accepted `initialize` answers with a legacy version that the session's transport serves. -/
+theorem accepted_initialize_version_served (s : State) (r : Req) (hm : r.method = some .initialize)
+    (hacc : (admitReq s r).2 = .invoked .initialize .ok) :
+    resultInfo s r (admitReq s r).2 = some (initVersion s.tv r.iver) ∧
+    initVersion s.tv r.iver ∈ s.tv ∧ initVersion s.tv r.iver < newProtocolThreshold := by
+  rcases initialize_step s r hm with ⟨_, hv, _⟩ | ⟨_, ho⟩
+  · have := initVersion_served s.tv r.iver hv
+    exact ⟨by rw [hacc]; rfl, this.1, this.2.2⟩
+  · exfalso
+    rcases ho with ⟨c, d, e⟩ | e | e | e <;> rw [e] at hacc
+    · exact reject_not_invoked r c d _ _ hacc
+    · cases hacc
+    · cases hacc
+    · cases hacc
+
+/-- `server/discover` stores the request's identity in the session only when the transport serves the
+new protocol; on any other transport it is answered and changes nothing (so it cannot open the gate
+for legacy traffic there). -/
+theorem discover_persists_only_on_new_protocol_transport (s : State) (r : Req)
+    (hm : r.method = some .server_discover) (hnp : discoverPersists s.tv = false) : (admitReq s r).1 = s := by
+  rcases admit_cases s r with ⟨_, e⟩ | ⟨_, c, _, e⟩ | ⟨_, _, _, e⟩ | ⟨_, _, _, c, _, e⟩ | ⟨_, _, _, _, e⟩ | ⟨_, _, _, hg, e⟩
+  · rw [e]
+  · rw [e]
+  · rw [e]
+  · rw [e]
+  · rw [e]
+    rcases dispatch_cases s r with ⟨c, _, e'⟩ | ⟨m, _, hmeth, e'⟩ <;> rw [e']
+    rw [hm] at hmeth; cases hmeth
+    simp [serverHandler, hnp]
+  · exfalso
+    rw [hm] at hg
+    cases hn : usesNew r with
+    | false => rw [hn] at hg; exact gate_legacy_never_adopts _ _ hg
+    | true => rw [hn, tbl_gate_discover_new] at hg; cases hg
+
+/-- non-vacuity: a transport that declares only 2026-07-28 (and one that declares nothing) serves no
+legacy version; there `initialize` fails with -32022 carrying the transport's list, a following
+`tools/list` is still refused, a retried `initialize` fails the same way (it is NOT a duplicate), `ping`
+is served, and the state is the fresh one throughout. With one legacy version the handshake succeeds
+(with that version) and the retry is the duplicate. -/
+example :
+    let init : Req := { method := some .initialize, hasId := true, params := .objOk, tag := "c", iver := "2025-11-25" }
+    let list : Req := { method := some .tools_list, hasId := true, params := .absent }
+    let ping : Req := { method := some .ping, hasId := true, params := .absent }
+    let inid : Req := { method := some .notifications_initialized, hasId := false, params := .absent }
+    (trace (fresh ["2026-07-28"]) [init, list, inid, init, ping]).map (·.2.2) =
+      [.invoked .initialize (.failUnsupported ["2026-07-28"]), .rejected codeNone [],
+       .invoked .notifications_initialized (.fail codeNone),
+       .invoked .initialize (.failUnsupported ["2026-07-28"]), .invoked .ping .ok] ∧
+    finalState (fresh ["2026-07-28"]) [init, list, inid, init, ping] = fresh ["2026-07-28"] ∧
+    (trace (fresh []) [init, list]).map (·.2.2) = [.invoked .initialize (.failUnsupported []), .rejected codeNone []] ∧
+    (trace (fresh ["2026-07-28", "2025-03-26"]) [init, list, init]).map (·.2.2) =
+      [.invoked .initialize .ok, .invoked .tools_list .ok, .invoked .initialize (.fail codeNone)] ∧
+    resultInfo (fresh ["2026-07-28", "2025-03-26"]) init (.invoked .initialize .ok) = some "2025-03-26" := by decide
+
+example : ¬ ServesLegacy ["2026-07-28"] ∧ ¬ ServesLegacy [] ∧ ServesLegacy ["2026-07-28", "2025-03-26"] ∧
+    ServesLegacy supportedProtocolVersions := by
+  refine ⟨?_, ?_, ?_, ?_⟩
+  · rintro ⟨v, hv, _, hlt⟩
+    simp at hv; subst hv; revert hlt; decide
+  · rintro ⟨v, hv, _⟩; simp at hv
+  · exact ⟨"2025-03-26", by simp, by decide, by decide⟩
+  · exact ⟨"2025-11-25", by decide, by decide, by decide⟩
 
 /-- the user's `InitializedHandler` runs exactly when the `initialized` notification is accepted -/
 def initializedHandlerRuns (o : Outcome) : Bool := o == .invoked .notifications_initialized .ok
